@@ -6,6 +6,7 @@
 //! Every reported failure carries the concrete input, so it can be replayed against the real code.
 //!
 //! usage: vp-native <PROP|ALL> [crate[,crate...]] [--seed N] [--iters N] [--config NAME]
+//!                  [--max-per-kind N (3)] [--max-records N (60)] [--stats] [--list]
 //!   prints one JSON object per failure on stdout; exit status 1 if any failure was found, 0 otherwise.
 //!   PROP = C03 prints a transcript (one JSON object per case) that vp-falsify compares between configurations.
 //!
@@ -136,6 +137,11 @@ fn main() {
                 i += 1;
                 let v: usize = args[i].parse().expect("--max-per-kind N");
                 util::with(|s| s.max_per_key = v);
+            }
+            "--max-records" => {
+                i += 1;
+                let v: usize = args[i].parse().expect("--max-records N");
+                util::with(|s| s.max_total = v);
             }
             "--stats" => {
                 stats = true;
